@@ -20,7 +20,7 @@ pub const UNARY: &[&str] = &[
     "X.a", "X.b", "X[0]", "X[-1]", "X[1:]", "X[::-1]", "X[*]", "X[]", "X.*", "!X", "(X)",
 ];
 pub const BINARY: &[&str] = &[
-    "X|Y", "X||Y", "X&&Y", "X==Y", "X!=Y", "X<Y", "[X,Y]", "{a:X,b:Y}", "X[?Y]", "sort_by(X, &Y)", "map(&X, Y)",
+    "X|Y", "X||Y", "X&&Y", "X==Y", "X!=Y", "X<Y", "X<=Y", "[X,Y]", "{a:X,b:Y}", "X[?Y]", "sort_by(X, &Y)", "map(&X, Y)",
 ];
 
 pub fn apply1(t: &str, x: &str) -> String {
